@@ -39,6 +39,10 @@ func genLateOps(rng *rand.Rand, c *Case, unit, ooo, lateness int64) {
 			tok = "s" + tok
 		case 2:
 			tok = "t" + tok
+		case 3:
+			tok = "h" + tok
+		case 4:
+			tok = "q" + tok
 		}
 		c.Ops = append(c.Ops, []string{"add", strconv.Itoa(nextID), tok})
 		nextID++
@@ -308,6 +312,7 @@ func (c02) Gen(rng *rand.Rand, tier string, idx int) Case {
 			c.Stat = append(c.Stat, "no-timeunit")
 		}
 		genLateOps(rng, &c, size, ooo, late)
+		bigEpoch(rng, &c)
 		c.Stat = append(c.Stat, "tumbling", "lateness="+map[bool]string{true: "0", false: ">0"}[late == 0])
 	case k < 7: // sliding (late-update target chosen by Go map order: the driver takes the observed target as witness)
 		p := [][2]int64{{2, 1}, {3, 2}, {5, 5}, {2, 3}}[rng.Intn(4)]
@@ -317,6 +322,7 @@ func (c02) Gen(rng *rand.Rand, tier string, idx int) Case {
 		late := []int64{0, 1, slide, 3 * size}[rng.Intn(4)]
 		c.Cfg = [][]string{{"kind", "sliding"}, {"mode", "et"}, {"size", itoa(size)}, {"slide", itoa(slide)}, {"ooo", itoa(ooo)}, {"late", itoa(late)}, {"now", "0"}}
 		genLateOps(rng, &c, slide, ooo, late)
+		bigEpoch(rng, &c)
 		c.Stat = append(c.Stat, "sliding", "lateness="+map[bool]string{true: "0", false: ">0"}[late == 0])
 	default: // session with lateness
 		timeout := []int64{10, 1000, 3}[rng.Intn(3)]
